@@ -3,6 +3,30 @@
 import json
 
 CLAIMED = {
+ "C06": dict(
+   text="Machine-checked proof (Coq) about the executable model of decompose (model/Decompose.v, generic in the per-observation score): exact additive identity score = mcb - dsc + unc, score = weighted average, "
+        "uncertainty independent of the forecasts and equal to the score of the marginal (best constant for squared error), miscalibration >= 0 and discrimination >= 0 against ALL monotone competitors for squared error, "
+        "degree-2 expectile scores and pinball loss (exact Q arithmetic) and for every Bregman degree incl. Poisson/Gamma (world R: recalibrated forecast scores no worse than the forecast and than any admissible constant), "
+        "discrimination 0 for constant forecasts (mean, expectile), miscalibration 0 at fixed points of the recalibration. Tie: whole-function skeleton of decompose and a correspondence run with a recording scoring function "
+        "(marginal, recalibrated vector of every column, the four numbers and the exception class compared inside Coq for 12 score configurations). Two genuine defects repaired (fixes e52a7ce, and d3b9226/04732ba under C07).",
+   note="Partial: signs for log loss, asymmetric scores of degree != 2 and quantile scores of degree != 1, dsc = 0 for constant forecasts with quantile scores, and mcb = 0 for the OUTPUT of a recalibration (tie-group pooling) are evaluated by the judge "
+        "on the implementation for every case, not proved. scikit-learn's IsotonicRegression (used for the mean) is an oracle compared with the model on every case. Float rounding: comparator 1e-9, sign judge 1e-12 relative.",
+   technique="Coq proof (ring identity, optimality certificate of C01-C03, Bregman sub-gradient inequality) + whole-function skeleton + vm_compute correspondence with recorded score tables", ref="4 C06"),
+ "C07": dict(
+   text="Machine-checked proof (Coq) about model/Decompose.v: each column of a forecast matrix gets the single-column result; score and uncertainty are invariant under any permutation of the rows (all functionals); all four columns are "
+        "permutation invariant for the mean functional (via uniqueness of the optimal fit among functions of the forecast), unconditionally for squared error; discrimination and uncertainty are unchanged by any strictly increasing relabelling of the forecasts; "
+        "explicit = inferred functional/level, mean ignores level, median = quantile 1/2. Tie as C06; the judge evaluates permutation, replication (integer weights vs repeated rows), relabelling (2x+1, x^3, exp), column independence and aliases "
+        "on the implementation for every generated case. Two genuine defects repaired (fixes d3b9226 median alias, 04732ba repair path located by value).",
+   note="Partial: permutation invariance of mcb/dsc for expectile and quantile scores and on the repair path, and replication, are metamorphic tests by the judge (not theorems).",
+   technique="Coq proof (Permutation, uniqueness of the isotonic fit among functions of X) + whole-function skeleton + correspondence + metamorphic judge", ref="4 C07"),
+ "C19": dict(
+   text="Mostly correspondence (stated plainly): model/Plots.v composes the IsoFit, elementary-score and Bias models; proved in Coq (axiom-free): diagonal spans all predictions, reliability vertices lie on the fit, are monotone, span the column, "
+        "bias variant = prediction minus fit, curve i depends on column i only, Murphy points are the weighted average elementary scores (>= 0) at exactly the requested etas, the default eta grid runs from the min to the max of all observations and predictions, "
+        "bias-plot points are compute_bias's means. Decided by correspondence: the Line2D / errorbar data of the Axes returned by the real functions (Agg backend) equal the model (curves compared as functions, 1e-9), labels, returned object is the given ax, configuration unchanged.",
+   note="Not modelled: n_bootstrap, plotly backend (not installed), content of plot_marginal (only axes/config behaviour observed). scikit-learn's fit for the mean is compared with the model. "
+        "Known finding: plot_bias(feature=None, 1-D y_pred) raises TypeError.",
+   technique="Coq proof about compositions + correspondence on matplotlib artists + judge by brute force", ref="4 C19"),
+
  "C09": dict(
    text="Machine-checked proof (Coq, world Q, axiom-free) about the executable model of compute_bias (model/Bias.v on top of model/Binning.v): every output row is the definition applied to the rows of its group "
         "(weighted mean of V, count, weight sum, Bessel-corrected stderr^2, t^2 and degrees of freedom), counts and weights sum to the totals, weight-averaged group means equal the overall mean, "
